@@ -27,7 +27,7 @@ SPEC = dict(
             _e("c25_framing", "blocks N ': 1' b '0' b LF b ':2' CRLF with N in {Content-Length, Transfer-Encoding, cONTENT-lENGTH, Host} | three fields from the pool "
                "{X: a, Content-Length: 7, Transfer-Encoding: chunked, Host: h} the second possibly 'Content-Length: ' b" + _cfg, _lab("framing", "dup")),
         ]),
-    timeout=dict(quick=400, thorough=2400),
+    timeout=dict(quick=900, thorough=3000),
     stubs=["StatHist::enumInit/count are no-ops (per-header statistics histograms; StatHist.cc not linked)",
            "SquidConfig Config is the real global, zero-initialised, relaxed_header_parser set by the harness",
            "compat/xstring.cc is the real file with its xstrdup renamed away (xstrdup is an engine model)", "debugs() disabled"],
